@@ -149,6 +149,17 @@ def check(ctx: Ctx) -> list[RuleResult]:
             r4.ok({"write": norm(n), "reads": sorted(d)[:8]})
         else:
             r4.fail(f"{f.short}:{norm(n)}", g.loc(n), "an assignment to _recv_buffer discards the carried bytes (its value depends neither on the previous buffer nor on the unterminated tail)", [f"value depends on: {sorted(d)[:10]}"])
+    # (iv) the decision to split depends on the carried buffer too (a CR LF pair may straddle two reads)
+    for g in [f] + list(f.nested.values()):
+        for n in own_nodes(g.node):
+            if isinstance(n, ast.If) and any(isinstance(x, (ast.Yield, ast.YieldFrom)) or (isinstance(x, ast.Assign) and any(norm(t) == BUF for t in x.targets)) for b in n.body for x in ast.walk(b)):
+                r4.instances += 1
+                r4.nontrivial += 1
+                d = deps.of_expr(n.test)
+                if BUF in d:
+                    r4.ok({"split_condition": norm(n.test), "reads": sorted(x for x in d if "recv" in x or x == "data")})
+                else:
+                    r4.fail(f"{f.short}:split-condition:{norm(n.test)[:40]}", g.loc(n), f"the condition `{norm(n.test)}` that decides when to cut lines does not depend on the carried buffer: a terminator split across two reads (CR | LF) is not seen until a later read")
     # (iii) no other writer
     others = []
     for g in repo.funcs.values():
